@@ -163,6 +163,37 @@ def overlap_safe(ck, prog, rule, fn_rx):
     return n
 
 
+def _region_literals(fn, region):
+    """integer literals appearing anywhere in the statements and terminators of the region's blocks"""
+    out = set()
+
+    def scan(node):
+        if isinstance(node, dict):
+            if node.get("k") == "const" and isinstance(node.get("val"), int):
+                out.add(node["val"])
+            for v in node.values():
+                scan(v)
+        elif isinstance(node, list):
+            for v in node:
+                scan(v)
+    for b in region:
+        scan(fn.blocks[b]["s"])
+        scan(fn.blocks[b]["t"])
+    return out
+
+
+# equivalent spellings of a guard (all patterns of one alternative must match)
+ALT_PATTERNS = {
+    # the number of code-length codes written as the length of the ORDER table instead of the literal 19
+    "cl-table": [[P(rel="isnot", calls={"inflate_table"}, names={"Codes", "lens", "ORDER"}, consts={7})]],
+}
+
+MERGED_ALTERNATIVES = {
+    "rep17-overflow": ([P(rel="Lt", lo_names={"nlen", "ndist"}, hi_names={"have"})], {3, 7, 11, 17}),
+    "rep18-overflow": ([P(rel="Lt", lo_names={"nlen", "ndist"}, hi_names={"have"})], {3, 7, 11, 17}),
+}
+
+
 def site_sigs(fn, bb):
     es, ds = sig.site_guards(fn, bb)
     return es + ds
@@ -197,6 +228,21 @@ def check_rejections(ck, prog, rule, only_impls=None, only_names=None):
             for b in sites:
                 ss = site_sigs(fn, b)
                 missing = [p for p in pats if not any(sig.sym_match(s, p) for s in ss)]
+                if missing and name in MERGED_ALTERNATIVES:
+                    # the same validation in its merged spelling (one arm for symbols 17 and 18 with the repeat base and
+                    # width chosen per symbol): the overflow comparison guards the site and the arm still holds the constants
+                    alt_pats, need_consts = MERGED_ALTERNATIVES[name]
+                    if not [p for p in alt_pats if not any(sig.sym_match(s, p) for s in ss)]:
+                        regs = mode_regions(fn, 20) or mode_regions(fn, 10) or {}
+                        arm = [r for r in regs.values() if b in r]
+                        consts = set(arm_fingerprint(fn, arm[0])["consts"]) | _region_literals(fn, arm[0]) if arm else set()
+                        if need_consts <= set(consts):
+                            missing = []
+                if missing and name in ALT_PATTERNS:
+                    for alt in ALT_PATTERNS[name]:
+                        if not [p for p in alt if not any(sig.sym_match(s, p) for s in ss)]:
+                            missing = []
+                            break
                 if not missing:
                     okk = True
                     ck.ok(rule, inst, "site bb%d guarded by %s" % (b, "; ".join(mir.atom_str(s.atom, fn)[:80] for s in ss[:3])),
